@@ -736,6 +736,10 @@ func writeEvidence(id, tier string, seed int, prop *Prop, outcomes []*runOutcome
 		// trying a scratch tree (seeded change): keep /verif/evidence for /repo
 		evDir = filepath.Join(verifDir, "replays", "evidence-scratch")
 	}
+	if d := os.Getenv("VERIF_EVIDENCE_DIR"); d != "" {
+		// development runs that must not replace the registered evidence
+		evDir = d
+	}
 	os.MkdirAll(evDir, 0o755)
 	os.WriteFile(filepath.Join(evDir, id+".json"), b, 0o644)
 }
